@@ -47,6 +47,7 @@ def catalogue(rnd, n_random):
     out.append(('decorative zero division', 'x = 0.0\ny = 1/x\nMaxTime = 2', {}))
     out.append(('transient zero division', 'x = 1/(y - 1.)\ny = 0.5*y + 2\ny(0) = 1.\nMaxTime = 2', {}))
     out.append(('persistent zero division', 'x = 1/(y - y)\ny = 3.\nz = x + y\nMaxTime = 2', {}))
+    out.append(('error in an early equation', 'x = 1/z\nz = 0.*y\ny = 3.\nw = x + y + z\nMaxTime = 2', {}))
     out.append(('log domain', 'x = log10(y)\ny = 0.*x\nz = x + y\nMaxTime = 2', {}))
     out.append(('expanding', 'x = 2*x + 1\nx(0) = 1.\nMaxTime = 3', {}))
     out.append(('oscillating', 'x = -1.0*x + 1\nx(0) = 3.\nMaxTime = 3', {}))
@@ -103,6 +104,11 @@ def check_solved(s, funcs, tol):
         for lag, src in p.Lagged:
             if s.TimeSeries[lag][k] != s.TimeSeries[src][k - 1]:
                 return 'lagged %s(%d) = %r != %s(%d) = %r' % (lag, k, s.TimeSeries[lag][k], src, k - 1, s.TimeSeries[src][k - 1])
+        for var, eqn in list(p.Decoration) + list(p.Endogenous):
+            try:
+                eval(eqn, globals(), dict(env))
+            except (ZeroDivisionError, ValueError, OverflowError) as ex:
+                return 'the equation %s = %s cannot even be evaluated at the reported values of period %d (%s: %s)' % (var, eqn, k, type(ex).__name__, ex)
         for var, eqn in p.Decoration:
             want = eval(eqn, globals(), dict(env))
             if want != env[var]:
